@@ -299,6 +299,7 @@ fn describe_cut(d0: &Disk, journal: &[Op], cp: &CrashPoint) -> (String, String) 
             };
             (format!("crash at a step boundary: after {}{}", kind, target), format!("{} {}", head, after_what))
         }
+        CrashPoint::OpError { kind } if kind.starts_with("fsync_keeps:") => ("fsync fails because the write-back failed: only a prefix of the un-synced data is on the medium".to_string(), format!("{} every fsync of the run fails with ENOSPC and of the data written to the file since its last successful fsync only {} bytes are on the medium; the run handles the error and exits", head, &kind["fsync_keeps:".len()..])),
         CrashPoint::OpError { kind } => (format!("{} fails in the write procedure", kind), format!("{} every {} of the run fails ({}); the run handles the error and exits", head, kind, if kind == "open_write" { "EACCES" } else { "EIO" })),
         CrashPoint::WriteError { after } => {
             // which write, and where inside the row, does byte `after` fall?
@@ -479,6 +480,12 @@ impl C14 {
             for kind in ["fsync", "rename", "open_write"] {
                 pts.push(CrashPoint::OpError { kind: kind.to_string() });
             }
+            // fsync fails because the write-back failed (ENOSPC/EIO at write-back, as on NFS or a
+            // thin-provisioned disk): only a prefix of the un-synced data is on the medium
+            for _ in 0..(if sc.sample_cuts.is_some() { 3 } else { 24 }) {
+                let keep = if r.chance(1, 2) { total.saturating_sub(r.range(1, 70) as u64) } else { r.range(0, total as i64 - 1) as u64 };
+                pts.push(CrashPoint::OpError { kind: format!("fsync_keeps:{}", keep) });
+            }
         }
         pts
     }
@@ -607,6 +614,7 @@ impl Engine for C14 {
                     let spec = match &cp {
                         CrashPoint::WriteError { after } => FsFaultSpec { enospc_after_bytes: Some(*after), ..FsFaultSpec::default() },
                         CrashPoint::OpError { kind } if kind == "fsync" => FsFaultSpec { fsync_errno: Some(libc::EIO), ..FsFaultSpec::default() },
+                        CrashPoint::OpError { kind } if kind.starts_with("fsync_keeps:") => FsFaultSpec { fsync_errno: Some(libc::ENOSPC), fsync_error_keeps: kind["fsync_keeps:".len()..].parse().ok(), ..FsFaultSpec::default() },
                         CrashPoint::OpError { kind } if kind == "rename" => FsFaultSpec { rename_errno: Some(libc::EIO), ..FsFaultSpec::default() },
                         _ => FsFaultSpec { open_write_errno: Some(libc::EACCES), ..FsFaultSpec::default() },
                     };
@@ -644,6 +652,7 @@ impl Engine for C14 {
             st.bump("probe.crash_states");
             match &cp {
                 CrashPoint::WriteError { .. } => st.bump("fault.write_error_disk_full"),
+                CrashPoint::OpError { kind } if kind.starts_with("fsync_keeps:") => st.bump("fault.fsync_error_with_lost_write_back"),
                 CrashPoint::OpError { kind } => st.bump(&format!("fault.{}_error_in_write_procedure", kind)),
                 CrashPoint::Prefix { cut, .. } if *cut > 0 => st.bump("fault.crash_inside_write"),
                 CrashPoint::Prefix { k, .. } => st.bump(&format!("fault.crash_after_{}", if *k == 0 { "nothing" } else { journal[*k - 1].kind() })),
